@@ -255,25 +255,39 @@ def _unband(ab, kl, ku, n):
     return A
 
 
-def gbtrf(ab, kl, ku):
+def gbtrf(ab, kl, ku, overwrite_ab=False):
     return _np.array(ab, dtype=object), (int(kl), int(ku)), 0
 
 
-def gbtrs(ab, kl, ku, b, ipiv, trans=False):
+def _maybe_in_place(b, x, overwrite_b):
+    """overwrite_b=True lets LAPACK write the solution into the caller's array (it does for contiguous arrays of the routine's
+    dtype, which is what pygyro passes): model it as always in place, the returned array being the argument itself"""
+    if overwrite_b and isinstance(b, _np.ndarray) and b.dtype == object:
+        b[...] = x
+        return b
+    return x
+
+
+def gbtrs(ab, kl, ku, b, ipiv, trans=False, overwrite_b=False):
     n = _np.shape(ab)[1]
     A = _unband(ab, int(kl), int(ku), n)
-    return solve_contract(A, b, bool(trans)), 0
+    return _maybe_in_place(b, solve_contract(A, b, bool(trans)), overwrite_b), 0
 
 
-def gbtrs_real(ab, kl, ku, b, ipiv, trans=False):
+def gbtrs_real(ab, kl, ku, b, ipiv, trans=False, overwrite_b=False):
     """dgbtrs: the f2py wrapper converts its right-hand side to float64; the imaginary part of complex input is discarded
     (numpy only emits a ComplexWarning)"""
     bb = _np.asarray(b, dtype=object)
     out = _np.empty(bb.shape, dtype=object)
+    cast = False
     for idx in _np.ndindex(*bb.shape):
         x = bb[idx]
+        cast = cast or isinstance(x, (symx.SComplex, complex))
         out[idx] = x.re if isinstance(x, symx.SComplex) else (x.real if isinstance(x, complex) else x)
-    return gbtrs(ab, kl, ku, out, ipiv, trans)
+    n = _np.shape(ab)[1]
+    A = _unband(ab, int(kl), int(ku), n)
+    x = solve_contract(A, out, bool(trans))
+    return _maybe_in_place(b, x, overwrite_b and not cast), 0
 
 
 class Dense:
